@@ -42,5 +42,16 @@ p = os.path.join(H, 'DESIGN.md')
 s = open(p).read()
 s = re.sub(r'<!-- BEGIN FINDINGS TABLES -->.*?<!-- END FINDINGS TABLES -->', lambda m: '<!-- BEGIN FINDINGS TABLES -->\n' + ft + '\n<!-- END FINDINGS TABLES -->', s, flags=re.S)
 s = re.sub(r'<!-- BEGIN SEEDED TABLE -->.*?<!-- END SEEDED TABLE -->', lambda m: '<!-- BEGIN SEEDED TABLE -->\n' + st + '\n<!-- END SEEDED TABLE -->', s, flags=re.S)
+crow = ['| check | workload and oracle (from evidence) | last committed quick run |', '|---|---|---|']
+for i in range(1, 21):
+    cid = 'C%02d' % i
+    try:
+        e = json.load(open(os.path.join(H, 'evidence', cid + '.json')))
+    except Exception:
+        continue
+    cov = e.get('coverage', {})
+    crow.append('| %s | %s | %s evaluations, %s distinct non-trivial, verdict %s |' % (cid, esc(re.sub(r'\s+', ' ', cov.get('rule', ''))), cov.get('evaluations'), cov.get('distinct_nontrivial'), cov.get('verdict', e.get('verdict', '?'))))
+ct = '\n'.join(crow)
+s = re.sub(r'<!-- BEGIN CHECKS TABLE -->.*?<!-- END CHECKS TABLE -->', lambda m: '<!-- BEGIN CHECKS TABLE -->\n' + ct + '\n<!-- END CHECKS TABLE -->', s, flags=re.S)
 open(p, 'w').write(s)
 print('fixed', len(fixed), 'findings', len(findings), 'seeded', len(rows) - 2)
